@@ -109,6 +109,22 @@ def check_scans(ctx, kinds=('lower', 'higher', 'closest'), fill_true_only=False,
             why = check_closed_form(ctx, kind, fi, fill_true_only)
             if why is None:
                 continue
+            # whatever the shape of the scan: an element or a query value used as a truth value (0 is a legitimate value; the end of the data is None,
+            # tested by identity) is decided on the evaluated conditions alone
+            try:
+                gev = Evaluator(ctx.prog, inline=lambda f: True, opaque_kind=REPO_RESULT_KIND)
+                ps_ = fi.params()
+                gargs = {ps_[0]: arr_param('x', length=sym.sym('L')), ps_[1]: arr_param('lookup', length=sym.sym('Q'))}
+                if len(ps_) > 2:
+                    gargs[ps_[2]] = Term('param', (Const(ps_[2]),))
+                gev.run_function(fi, args=gargs)
+                conds = [l['cond'] for l in gev.loop_log] + [g for e in gev.events for g in e.guard]
+                truthy = sorted({t for t in _sentinel_tests(conds) if any(h in t for h in ('lib:next', 'loopvar', 'builtins.next', 'next('))})
+                if truthy:
+                    ctx.fail('C10.3', f"{kind}: the None sentinel is tested by identity, not by truthiness (an element equal to 0 is a legitimate value)",
+                             f"{truthy[:3]}", fi.loc(), fi.qualname, f"{kind}:sentinel")
+            except AnalysisError:
+                pass
             raise AnalysisError(f"C10.3: {fi.name}: two-pointer scan not recognised: {ex}; nor is it an element-wise closed form: {why}")
         for msg in m.issues:
             ctx.fail('C10.3', f"{kind}: initialisation", msg, fi.loc(), fi.qualname, f"{kind}:init:{msg[:30]}")
